@@ -37,6 +37,7 @@ func runC05(c *core.Ctx) {
 	h.storageErrorsSurface("C05.6 storage-errors-surface", storageErrExempt)
 	h.openStorageLoads("C05.7 restart-loads", "term")
 	h.settersSkipJustified("C05.8 setter-skip-justified")
+	h.dirListingLiteral("C05.9 dir-listing")
 }
 
 // setterPersistThenPublish: in setTerm / setVotedFor every store to
